@@ -181,9 +181,12 @@ func (s *NatSock) WriteTo(b []byte, dst net.Addr) (int, error) {
 }
 func (s *NatSock) ReadFrom(b []byte) (int, net.Addr, error) {
 	n, a, err := s.PacketConn.ReadFrom(b)
-	if err != nil && s.DelayTimeout > 0 && isTimeout(err) {
+	s.mu.Lock()
+	hold := s.DelayTimeout
+	s.mu.Unlock()
+	if err != nil && hold > 0 && isTimeout(err) {
 		s.ev(natEv{Kind: "timeoutHeld"})
-		time.Sleep(s.DelayTimeout)
+		time.Sleep(hold)
 	}
 	as := ""
 	if a != nil {
@@ -191,6 +194,13 @@ func (s *NatSock) ReadFrom(b []byte) (int, net.Addr, error) {
 	}
 	s.ev(natEv{Kind: "readFrom", Addr: as, N: n, Err: errStr(err)})
 	return n, a, err
+}
+
+// SetDelayTimeout makes the socket report read timeouts this much late (a slow reaper).
+func (s *NatSock) SetDelayTimeout(d time.Duration) {
+	s.mu.Lock()
+	s.DelayTimeout = d
+	s.mu.Unlock()
 }
 func (s *NatSock) Close() error {
 	s.ev(natEv{Kind: "close"})
